@@ -574,12 +574,26 @@ def _range(I, args, kw):
     raise Unsupported("range with symbolic bounds")
 
 
-@ext(sorted, reversed)
+@ext(reversed)
+def _reversed(I, args, kw):
+    ex = I.ex
+    items = ex.iter_concrete(args[0])
+    if items is not None:
+        return list(reversed(items))
+    seq = ex.as_symbolic_seq(args[0])
+    if seq is not None and not getattr(seq, "rev", False):
+        r = SSeq(seq.t, seq.elem)
+        r.rev = True  # element i of the view is seq[len-1-i]
+        return r
+    raise Unsupported("reversed of symbolic data")
+
+
+@ext(sorted)
 def _sorted(I, args, kw):
     ex = I.ex
     if _conc(I, *args) and not kw:
         return HList(items=sorted(args[0]))
-    raise Unsupported("sorted/reversed of symbolic data")
+    raise Unsupported("sorted of symbolic data")
 
 
 @ext(sys.getsizeof)
